@@ -184,6 +184,70 @@ Example chunkings_exist :
   read_until 62 [[1;2]; [62;3]]%N = ([1;2;62]%N, [[3]]%N).
 Proof. repeat split; repeat constructor; discriminate. Qed.
 
+(* ================= round 3: general layout (every count has its own blanks) =================
+   IoPrint's style has ONE separator string per record, so right-aligned files such as
+   tests/MA0017.3.pfm, benches/JASPAR2024.pwm or the doc example of jaspar/mod.rs
+   ("A  [  7266   6333   8496      0 ... ]") are not instances of print_jaspar16 for any style.
+   IoPrintG.v: each count carries the blanks in front of it (first: any number, others: at least one),
+   each JASPAR 2016 line its own blanks around '[' and ']'.  Same conclusion as reader_roundtrip_*:
+   any chunking, any compaction schedule, exactly the written records then End.  The driver
+   recognises every bundled file as such an instance (extracted print_file_g / wf_jaspar16_g) and
+   compares what was read with the records of this theorem. *)
+From LMIo Require Import IoPrintG IoLineProofsG IoRecordProofsG.
+
+Theorem reader_roundtrip_jaspar_general : forall caps prefix rs suffix s,
+  rs <> [] -> forallb wf_jaspar_g rs = true -> wf_prefix prefix = true -> wf_suffix suffix = true ->
+  wf_stream s -> stream_bytes s = print_file_g print_jaspar_g prefix rs suffix ->
+  jaspar_read caps s = map (fun r => Ok (Some (record_of Dna 0%N dec_value (src_of_g r)))) rs ++ [Ok None].
+Proof. exact jaspar_g_roundtrip_lemma. Qed.
+
+Theorem reader_roundtrip_jaspar16_general : forall A caps prefix rs suffix s,
+  wf_alphabet A ->
+  rs <> [] -> forallb (wf_jaspar16_g A) rs = true -> wf_prefix prefix = true -> wf_suffix suffix = true ->
+  wf_stream s -> stream_bytes s = print_file_g print_jaspar16_g prefix rs suffix ->
+  jaspar16_read A caps s = map (fun r => Ok (Some (record_of A 0%N dec_value (src_of_g r)))) rs ++ [Ok None].
+Proof. exact jaspar16_g_roundtrip_lemma. Qed.
+
+(* the one-separator style of reader_roundtrip_jaspar / _jaspar16 is the special case g_of_style:
+   same text, well-formed, same expected record *)
+Theorem style_layout_is_special_case_jaspar16 : forall A p, wf_jaspar16 A p = true ->
+  wf_jaspar16_g A (g_of_style p) = true /\ print_jaspar16 p = print_jaspar16_g (g_of_style p) /\
+  src_of_g (g_of_style p) = snd p.
+Proof.
+  intros A [y r] H. split; [exact (wf_jaspar16_of_style A (y, r) H)|]. split; [|exact (src_of_g_of_style y r)].
+  apply print_jaspar16_of_style. unfold wf_jaspar16 in H.
+  repeat (apply andb_true_iff in H; destruct H as [H ?]).
+  apply wide_cols_nonempty; [assumption|apply Nat.leb_le; assumption].
+Qed.
+
+Theorem style_layout_is_special_case_jaspar : forall p, wf_jaspar p = true ->
+  wf_jaspar_g (g_of_style p) = true /\ print_jaspar p = print_jaspar_g (g_of_style p) /\
+  src_of_g (g_of_style p) = snd p.
+Proof.
+  intros [y r] H. split; [exact (wf_jaspar_of_style (y, r) H)|]. split; [|exact (src_of_g_of_style y r)].
+  apply print_jaspar_of_style. unfold wf_jaspar in H.
+  repeat (apply andb_true_iff in H; destruct H as [H ?]).
+  apply wide_cols_nonempty; [assumption|apply Nat.leb_le; assumption].
+Qed.
+
+(* non-vacuity: the first record of benches/JASPAR2024.pwm (three of its columns) with its right-aligned layout *)
+Definition ex_general_record : gsrc :=
+  let b := fun k => repeat 32%N k in
+  let l := fun s (ts : list (nat * list N)) =>
+             {| g_sym := s; g_gap := b 2; g_toks := map (fun kt => (b (fst kt), snd kt)) ts; g_tail := b 1; g_post := [] |} in
+  {| g_id := [77;65;48;48;48;52;46;49]%N; g_desc := Some [65;114;110;116]%N; g_hsep := [9%N]; g_crlf := false;
+     g_lines := [l 65%N [(5, [52%N]); (5, [49;57]%N); (6, [48%N])]; l 67%N [(4, [49;54]%N); (6, [48%N]); (5, [50;48]%N)];
+                 l 71%N [(5, [48%N]); (6, [49%N]); (6, [48%N])]; l 84%N [(5, [48%N]); (6, [48%N]); (6, [48%N])]] |}.
+
+Example general_layout_wf : wf_jaspar16_g Dna ex_general_record = true.
+Proof. vm_compute. reflexivity. Qed.
+
+Example general_layout_instance :
+  jaspar16_read Dna (fun _ => 0) [print_file_g print_jaspar16_g [] [ex_general_record] []]
+  = [Ok (Some {| rid := [77;65;48;48;48;52;46;49]%N; rdesc := Some [65;114;110;116]%N;
+                 rmatrix := [[4;16;0;0;0]; [19;0;0;1;0]; [0;20;0;0;0]]%N |}); Ok None].
+Proof. vm_compute. reflexivity. Qed.
+
 (* ================= round 3: the consumer that keeps asking after End =================
    A well-formed file read through ANY chunking by a consumer that makes n > (number of records)
    requests: exactly the written records, in order, then End at every further request -- nothing
